@@ -85,6 +85,9 @@ IsWalk == steps' = steps + 1 /\ up' = up /\ now' = now
 ConnectedToALiveServer == [][IsWalk => (result' = "ok" => at' \in up)]_vars
 \* recovery: a call fails only if no server the walk asked answered - when a server of the list answers and is asked, the call succeeds
 RecoversWhenReachable == [][IsWalk => (result' = "err" => \A k \in 1..Len(attempts') : attempts'[k] \notin up)]_vars
+\* ... and, stronger: a walk fails only if NO server of the list answers at that moment (a server that failed a moment ago is skipped
+\* by the loop at most when it is the first one, and then the fallback asks it)
+RecoversIfAnyUp == [][IsWalk => (up # {} => result' = "ok")]_vars
 \* the first server is asked by every walk that finds nobody (it is never locked out for good)
 FirstServerAlwaysAsked == [][IsWalk => (result' = "err" => (Len(attempts') > 0 /\ attempts'[Len(attempts')] = 1))]_vars
 \* a walk asks no server twice, except the first one in the fallback
